@@ -1,8 +1,8 @@
 """Registry: which units serve which property, the level each property is claimed at, and the manifest texts."""
 REGISTRY = {
-    'C01': ['base_core', 'handles', 'connect'],
+    'C01': ['base_core', 'handles', 'connect', 'result'],
     'C06': ['base_core', 'handles', 'connect'],
-    'C02': ['core'],
+    'C02': ['core', 'result'],
     'C03': ['base_core', 'handles', 'core', 'event', 'strand', 'when', 'intrusive_ptr', 'connect'],
     'C04': ['base_core', 'strand', 'event', 'coro_mutex'],
     'C05': ['thread_pool', 'strand', 'core', 'handles'],
@@ -17,7 +17,7 @@ REGISTRY = {
     'C15': ['shared_mutex', 'coro_mutex', 'guards'],
     'C16': ['event', 'base_core'],
     'C17': ['fault_sched', 'sleep_map'],
-    'C18': ['fiber_locks', 'sleep_map'],
+    'C18': ['fiber_locks', 'sleep_map', 'tls'],
     'C19': ['atomic'],
     'C20': ['alloc'],
 }
@@ -33,7 +33,9 @@ CLAIMS = {
                 'SetInlineImpl, SetResultImpl (both transfer modes), Empty/Ready, StoreCallbackImpl, Loop, Step, Noop are extracted from the '
                 'current source and proved per function for every placement of the other role\'s steps (any interleaving under SC); lemma '
                 'jobs prove the invariant stable, the relies closed, and exactly-once delivery of the run token at quiescence. '
-                'Connect (unit connect, six overloads): exactly one of attached / fulfilled right now, decided by the attach attempt or an observation that the Result is there; CallInline only for terminal callbacks.',
+                'Connect (unit connect, six overloads): exactly one of attached / fulfilled right now, decided by the attach attempt or an observation that the Result is there; CallInline only for terminal callbacks. '
+                'Result<V, E> itself (unit result): State() names the alternative held (variant order and enumerator values extracted from the text), constructors select the alternative '
+                'their initialiser names (StopTag => Error), accessors read exactly their alternative, Ok()/Get hands out the value or throws what the state says.',
         'note': 'Sequentially consistent atomics (orders are C04); one producer and one consumer role as the threading contract states; '
                 'Here/Next overrides are interface contracts proved per override in other units; replay of interleavings on the real code is '
                 'available only for the sequential witnesses.',
@@ -66,7 +68,8 @@ CLAIMS = {
                 'the callback takes, else pass-through unchanged), CallResolveAsync (plain / Result / void stored as is; Future, SharedFuture, '
                 'Task: registration on the inner state, Task head started), CallImpl with its function-try-block (throw => Exception with the '
                 'thrown payload), Done (store, release, destroy, publish, in that order), Impl second visit (lemma unwrap: the step completes '
-                'with exactly the inner Result), Call, Drop (= Call on Error(Stop)), MoveToCaller, detail::SetCallback, MakeCore.',
+                'with exactly the inner Result), Call, Drop (= Call on Error(Stop)), MoveToCaller, detail::SetCallback, MakeCore. '
+                'Result<V, E> (unit result): state <-> held alternative, constructors, accessors, Ok()/Get - what the (kind, state, tag) abstraction of the other jobs stands on.',
         'note': 'Payloads are opaque (kind, state, tag) triples; exceptions exist only at the functor call; the mapping from C++ callables to '
                 'signature classes (is_invocable_v, Return<>, MakeCore type computation) is configuration input, not proved; step order is the '
                 'Loop / Here token discipline of C01. quick = 4 return kinds, thorough = the full product.',
@@ -237,7 +240,8 @@ CLAIMS = {
                 '(lock, try_lock, unlock, LockHelper), RecursiveTimedMutex, SharedMutex (lock, try_lock, lock_shared, try_lock_shared, unlock, unlock_shared, '
                 'both helpers), SharedTimedMutex: on return the fiber is the only holder in the requested mode, try / timed success really holds the lock, '
                 'failure only because it was incompatible or the deadline passed, unlock frees and notifies; FiberQueue Wait / timed Wait / NotifyOne, '
-                'ConditionVariable::WaitImpl, Thread::join (returns only after Completed), thread-local proxy keyed by the current fiber. '
+                'ConditionVariable::WaitImpl, Thread::join (returns only after Completed), thread-local proxy keyed by the current fiber; unit tls: every thread-local pointer '
+                'variable gets a key no other variable has whatever the pointee types (constructors of ThreadLocalPtrProxy; the scope of the key counter is read from the text). '
                 'Unit sleep_map: the scheduler\'s sleep map (Sleep, SleepPreemptive, WakeUpNeeded; std::map abstracted for one arbitrary key, ordered iteration never skips it): a passed deadline does not block, a sleeper is in the bucket of exactly its wake-up time, the clock wakes exactly the buckets whose time has come (all sleepers, once), a bucket is erased only when nobody sleeps in it, end() is never dereferenced (finding F14, fixed).',
         'note': 'Cooperative scheduling (no preemption between suspension points) is the model; context switching, the scheduler loop and std containers are '
                 'trusted; counters do not wrap. Replay: the real lock types in a FIBER build of the tree under check, 12 seeds of the stock scheduler.',
